@@ -176,7 +176,7 @@ def subchecks():
             name="recorded-search",
             run_case=run_case,
             strategy=lambda tier: gen.scenario(tier),
-            examples={"quick": 3000, "thorough": 200000},
+            examples={"quick": 8000, "thorough": 200000},
             case_timeout=20.0,
         )
     ]
